@@ -200,7 +200,7 @@ func readNLower(fn *ssa.Function, v ssa.Value, at ssa.Instruction) (int64, bool)
 		if h := directCallee(cs); h != nil && newHelpers[h] {
 			for k, a := range cs.Call.Args {
 				if kc, ok := a.(*ssa.Const); ok && kc.Value != nil && k < len(h.Params) && isIntegerType(a.Type()) {
-					known[fmt.Sprintf("param#%d", k)] = kc.Int64()
+					known[fmt.Sprintf("param#%d", k)] = constInt64(kc)
 				}
 			}
 		}
@@ -659,9 +659,9 @@ func c19IndexGuards(c *Ctx) {
 			if !isK || k.Value == nil {
 				return // a variable index: loops over len(x) etc. are not this rule's business
 			}
-			need := k.Int64() + 1
+			need := constInt64(k) + 1
 			n++
-			key := fmt.Sprintf("%s:index-%d", fnKey(f), k.Int64())
+			key := fmt.Sprintf("%s:index-%d", fnKey(f), constInt64(k))
 			ok := false
 			if lb, found := provenLowerLen(ins, x); found && lb >= need {
 				ok = true
@@ -686,9 +686,9 @@ func c19IndexGuards(c *Ctx) {
 					if hi, isC := sl.High.(*ssa.Const); isC && hi.Value != nil {
 						lo := int64(0)
 						if l, isC := sl.Low.(*ssa.Const); isC && l.Value != nil {
-							lo = l.Int64()
+							lo = constInt64(l)
 						}
-						ok = hi.Int64()-lo >= need
+						ok = constInt64(hi)-lo >= need
 					}
 					if p, isPtr := sl.X.Type().Underlying().(*types.Pointer); isPtr && sl.High == nil && sl.Low == nil {
 						if arr, isArr := p.Elem().Underlying().(*types.Array); isArr && arr.Len() >= need {
@@ -709,7 +709,7 @@ func c19IndexGuards(c *Ctx) {
 					switch callee(call) {
 					case "strings.Split", "strings.SplitAfter", "bytes.Split":
 					case "strings.SplitN", "strings.SplitAfterN", "bytes.SplitN":
-						if cnt, isC := call.Call.Args[2].(*ssa.Const); !isC || cnt.Value == nil || cnt.Int64() == 0 {
+						if cnt, isC := call.Call.Args[2].(*ssa.Const); !isC || cnt.Value == nil || constInt64(cnt) == 0 {
 							all = false
 						}
 					default:
@@ -718,8 +718,8 @@ func c19IndexGuards(c *Ctx) {
 				}
 				ok = all
 			}
-			c.verdict(ok, key, ins.Pos(), fmt.Sprintf("element %d is read only where len > %d is established", k.Int64(), k.Int64()),
-				fmt.Sprintf("element %d of a slice or string of input-dependent length is read but no dominating check establishes len > %d: malformed input panics with 'index out of range'", k.Int64(), k.Int64()))
+			c.verdict(ok, key, ins.Pos(), fmt.Sprintf("element %d is read only where len > %d is established", constInt64(k), constInt64(k)),
+				fmt.Sprintf("element %d of a slice or string of input-dependent length is read but no dominating check establishes len > %d: malformed input panics with 'index out of range'", constInt64(k), constInt64(k)))
 		})
 	}
 	if n == 0 {
